@@ -19,6 +19,7 @@ from sa.flow import Expander, flow_of
 from sa.model import src, walk_no_nested, unmangle
 from sa.pat import match, same
 from sa.types import base
+import re
 from . import taskrules as T
 from .taskrules import guard_facts, relation_write_nodes, Roles, SETTERS, REL_FIELDS, WBS_FIELD
 
@@ -168,7 +169,7 @@ def order(ctx, o, eff, q):
         key = _construct(f, w, rnode, rkind, rcallee)
         if w[0] is rn:
             fos = cfg.enclosing_fors(rn)
-            key = f"multi-receiver loop `for {src(fos[-1].target)} in {src(fos[-1].iter)}` applying a rejecting setter" if fos else key
+            key = "multi-receiver loop applying a rejecting setter" if fos else key
         elif ctor_like(f):
             key = "constructor applies several relation setters in sequence"
         if key in reported:
@@ -274,65 +275,55 @@ def cannot_reject(ctx, o, eff):
         else:
             o.refute(p, rr[0], rr[0], "re-rooting is attempted without a WBS")
     w = prog.func('wbs.WBS.__remove')
-    if any(match("$c.children.remove($t)", n) for n in ast.walk(w.node)):
+    exw = Expander(prog, w, ctx.typer, inline=False)
+    if any(match("$c.children.remove($t)", exw.expand(n)) for n in facts.calls_named(w, 'remove')):
         o.site(w, w.node, "WBS.__remove removes through the child list facade")
     else:
         o.undecided(w, w.node, '__remove', "WBS.__remove in an unrecognised form")
 
 
-TRANSLATE = {  # parent setter guard atom (callee roles: self = element, arg = caller self)  ->  caller atom
-    'same(arg,self)': 'same(elem,self)',
-    'desc(arg,self)': 'desc(self,elem)',
-    'call:_has_dependency_with_parents(self,arg)': 'call:_has_dependency_with_parents(elem,self)',
-    'wbsneq(arg,self)': 'wbsneq(elem,self)',
-    'call:_has_id_intersection(arg,[self])': 'call:_has_id_intersection(self,arg)',
-}
+def _swap_roles(atom: str) -> str:
+    """atom of the parent setter (self = the element, arg = the receiver of the children assignment) in the caller's roles"""
+    t = re.sub(r"\bself\b", "\0ELEM", atom)
+    t = re.sub(r"\barg\b", "self", t)
+    t = t.replace("\0ELEM", "elem")
+    m = re.match(r"^(same|wbsneq)\((.*),(.*)\)$", t)
+    if m and ',' not in m.group(2) and ',' not in m.group(3):
+        a, b = sorted([m.group(2), m.group(3)])
+        t = f"{m.group(1)}({a},{b})"
+    # the per-element id check is implied by the group check (monotone in its second argument; duplicates inside the argument
+    # are part of the group check - verified below)
+    if t == 'call:_has_id_intersection(self,[elem])':
+        t = 'call:_has_id_intersection(self,arg)'
+    return t
+
+
+def _translate_formula(f):
+    k = f[0]
+    if k == 'atom':
+        return ('atom', _swap_roles(f[1]))
+    if k == 'not':
+        return ('not', _translate_formula(f[1]))
+    if k in ('and', 'or'):
+        return (k, [_translate_formula(x) for x in f[1]])
+    return f
 
 
 def prevalidated(ctx, o, eff):
     prog = ctx.prog
     callee = prog.func(SETTERS['parent'])
     caller = prog.func(SETTERS['children'])
-    cfg = cfg_of(caller)
-    cg = guard_facts(ctx, callee)
-    kg = guard_facts(ctx, caller)
+    from .c05 import _reaches_under
     writes = relation_write_nodes(ctx, caller, eff)
-    for g in cg:
-        pos = [a for a, p in g.atoms if p is True and a not in ('wbsnone(self)',)]
-        trig = [a for a in pos if a in TRANSLATE]
+    for g in T.guard_formulas(ctx, callee):
         if g.exc != 'RuntimeError':
             o.refute(callee, g.node, g.node, f"the parent setter rejects with {g.exc}")
             continue
-        if not trig:
-            o.undecided(callee, g.node, g.node, f"parent setter guard {g.atoms} {[src(u) for u in g.unknown]} has no counterpart rule")
-            continue
-        a = trig[-1]
-        want = TRANSLATE[a]
-        cands = [k for k in kg if (want, True) in k.atoms and k.exc == 'RuntimeError']
-        need_elem = 'elem' in want and not want.startswith('call:_has_id_intersection')
-        cands = [k for k in cands if (k.binder == 'elem') or not need_elem]
-        # owner guard: the detached-receiver form `elem attached` also covers it
-        if a == 'wbsneq(arg,self)':
-            alt = [k for k in kg if set(k.atoms) == {('wbsnone(self)', True), ('wbsnone(elem)', False)} and k.exc == 'RuntimeError']
-            if not (cands and alt):
-                o.refute(caller, caller.node, want, "children assignment does not establish, for both modes of the receiver, that no element "
-                                                    "belongs to another owner before the old children are released")
-                continue
-            cands = cands + alt
-        if not cands:
-            o.refute(caller, caller.node, want, f"the parent setter can still reject an element with [{a}] after the old children were released: "
-                                                f"children assignment must check `{want}` for every element first")
-            continue
-        from .c05 import _reaches_under
-        bad = None
-        for k in cands:
-            late = [w for w in T.writes_not_preceded(cfg, caller, k, writes) if _reaches_under(cfg, caller, w[0], k)]
-            if late:
-                bad = (k, late[0])
-        if bad:
-            o.refute(caller, bad[0].node, want, f"`{want}` is checked after the write `{src(bad[1][1])[:40]}`")
-        else:
-            o.site(caller, cands[0].node, f"{a} (parent setter) <= {want} (children setter, before the first write)")
+        R = _translate_formula(g.formula)
+        # the argument of the parent setter is the receiver of the children assignment: never None
+        R = T.F_and(R, T.F_not(T.F_atom('none(self)')))
+        label = "parent-setter guard `" + T.fmt(g.formula)[:70] + "` established for every element before the old children are released"
+        T.require(ctx, o, caller, label, R, writes, eff, needs_elem=False, mode_filter=_reaches_under)
     # ids: duplicates inside the argument are part of _has_id_intersection
     h = prog.func('task._has_id_intersection')
     dup = False
